@@ -6,7 +6,31 @@ HERE = os.path.dirname(os.path.dirname(os.path.abspath(__file__)))
 E1_TECH = "deterministic simulation with fault injection: the real node (all goroutines) in a synctest bubble under a seeded baton scheduler, simulated transport/disk/clock, scripted peers; oracle over the recorded history; seeded search with replay + tape minimisation"
 E1_NOTE = "Sampling, not proof. Trusted base: go1.26.8 synctest, the source-to-source instrumentation pass, the peer/world models. OutputFetcher/TxFetcher, transport, disk, clock and scheduling are simulated; everything else is the repository's code."
 
+E2_TECH = "deterministic simulation with fault injection: the real RemoteClient (all threads) in a synctest bubble under a seeded baton scheduler against a scripted service over the simulated transport (latency, fragmentation, slow writes, drops); oracle over the recorded call/response/byte history; seeded search with replay + tape minimisation"
+E2_NOTE = "Sampling, not proof. Trusted base: go1.26.8 synctest, the instrumentation pass (incl. every select statement of remote_client.go and the tokenized/threads copy), the service model. The session hash comes from a deterministic stream instead of crypto/rand."
+
 CLAIMED = {
+ "C02": ("exploration", E1_TECH,
+         "With a trusted peer that answers header and block requests Byzantine-ly (shuffled / gapped / duplicated / unknown-parent / mixed-branch header lists, empty headers, blocks unrequested, twice, swapped, never) and sends such messages unsolicited, the block repository stays hash-linked with mutually inverse height/hash answers at every check (every 5-45 simulated ms, in every HandleHeaders callback, at the end), and announced heights are contiguous, restart at fork+1, link to what was announced before and equal what the node holds.",
+         E1_NOTE, "6 C02, App. C"),
+ "C10": ("fault_enumeration", "deterministic simulation with fault injection at the storage seam: the mutation log of a simulated sync/reorg/shutdown run is recorded and every prefix (quick: up to 60 per scenario, all around deletes and reorg records) is restarted; plus seeded single-operation error injection",
+         "For each generated scenario every enumerated crash image (initial image + first i storage mutations) loads without error into a hash-linked chain that lies on one trusted-announced branch, and a new node started on it converges to the peer's best chain. With one storage operation failing the node converges anyway or after a clean restart, with linked chains in memory and on disk.",
+         E1_NOTE + " An individual Write/Remove of the storage interface is atomic (torn writes inside one call are outside the statement).", "6 C10"),
+ "C12": ("exploration", E1_TECH,
+         "With 1-3 untrusted connections sending generated adversarial traffic next to an honest trusted peer: the node still converges to the trusted chain, every block of its chain and every block announced to handlers was announced by the trusted peer, no confirmation refers to another block, nothing is reported safe without a trusted sighting, no getdata goes to a connection before it proved chain membership and never for blocks, and no transaction reaches handlers without some verified untrusted connection.",
+         E1_NOTE, "6 C12"),
+ "C16": ("exploration", E2_TECH,
+         "For 1-8 concurrent calls with distinct keys and any service behaviour per key (answer, reject, answer twice, silence; before or after the caller's time-out; unsolicited responses) each call returns exactly its own response or RejectError(code, text), or ErrTimeout no earlier than the request time-out and within request + message time-out + 5 s; GetOutputs returns each outpoint's own value and script in order or an error.",
+         E2_NOTE, "6 C16"),
+ "C17": ("exploration", E2_TECH,
+         "For service streams with duplicated, future, old and repeated-after-reconnect ids, connection drops at any stream position, slow handlers and slow writes: ids reach each handler strictly consecutively from the declared id, never twice, both handlers in the same order, NextMessageID() = last + 1, content equals the service's message of that id, and with a service that resumes exactly from the declared id nothing is missed.",
+         E2_NOTE, "6 C17, App. C"),
+ "C18": ("exploration", E2_TECH,
+         "Over accept variants per connection (valid, long-term key, key for another hash, foreign signature, altered counts, replayed accept, none, reject), both connection types, calls issued before/after accept, during disconnects and after reconnects, concurrent subscriptions, slow writes and drops: every Register verifies against the configured key; nothing but register/subscribe/ready is written before a connection's handshake completed; the client's bytes on every connection parse as whole messages; a call that returned nil was written after the handshake; after a forged accept no accept or data callback occurs and IsAccepted() is false.",
+         E2_NOTE, "6 C18"),
+ "C19": ("exploration", E1_TECH,
+         "With Stop requested at a tape-chosen instant of chain and transaction scenarios (while dialling, in the handshake, during sync, in sync, around the node's own reconnects, with slow handlers, untrusted connections, connection faults): Stop and Run return within 120 simulated seconds, the stored chain / unconfirmed set / peers equal the in-memory ones, no callback follows Stop's return, no node task survives, the first header request of every connection starts at the stored tip and no block is announced twice without a reorganisation.",
+         E1_NOTE, "6 C19"),
  "C01": ("exploration", E1_TECH,
          "For every explored block tree, best-chain change script (extend, reorg incl. below the start block and among undownloaded blocks, flip-flop), schedule and fault mix (duplicated / reordered / stalled peer messages, connection close / reset / bounded black-hole, dial failures, clean restarts) the node's tip and height-to-hash answers from the start block up equal the peer's best chain within 45 simulated minutes of the last change, and HandleInSync is only delivered while every block announced in fully read headers messages is held.",
          E1_NOTE, "6 C01, App. C"),
